@@ -1,5 +1,5 @@
 CONSTANTS
-  Lens = {0, 63, 8191, 16383, 16384, 1048575}
+  Lens = {0, 63, 16383, 16384, 1048575}
   MaxOps = 2
   ScriptLen = 3
   WLens = {0}
